@@ -176,6 +176,22 @@ class Idx:
             if s.base and s.base[0] == "var":
                 stored[s.base[1]] = stored.get(s.base[1], 0) + 1
         sc.stored = stored
+        # single-assignment integer locals defined by index arithmetic are inlined into index polynomials
+        # (`int base = i*n_species; ... mesh_x[base+s]`), so that hoisting a sub-expression changes nothing
+        sc.inline = {}
+        for nm, d in sc.defs.items():
+            if d is None or stored.get(nm) or nm in sc.multi:
+                continue
+            e = strip(d, casts=True)
+            if e.get("kind") == "BinaryOperator" and e.get("opcode") in ("+", "-", "*") and \
+                    all(x.get("kind") in ("BinaryOperator", "IntegerLiteral", "DeclRefExpr", "MemberExpr", "ImplicitCastExpr",
+                                          "ParenExpr", "CXXThisExpr") and (x.get("kind") != "BinaryOperator" or
+                                                                            x.get("opcode") in ("+", "-", "*"))
+                        for x in walk(e)):
+                try:
+                    sc.inline[nm] = cxa.poly(e, sc.inline)
+                except Exception:
+                    pass
 
     # ----------------------------------------------------------------------------------------- extents
     def ext_poly(self, n, f, env=None):
@@ -713,7 +729,7 @@ class Idx:
         rec = {"node": n, "fn": f.qual, "table": tname, "inner": inner, "root": self._key(f, b)[0],
                "text": text(n), "status": "ok", "layout": None, "detail": ""}
         self.subs.append(rec)
-        p = cxa.poly(index)
+        p = cxa.poly(index, self.scopes[f.qual].inline)
         try:
             if p.isconst():
                 terms = [(("lit", int(p.constval())), Poly.const(1), None)]
